@@ -194,6 +194,11 @@ func checkGrammar(r *ev.Run, g *gram, family string, n int, extra [][]string, ex
 		return
 	}
 	if perr != nil {
+		if strings.HasPrefix(family, "operators") || strings.HasPrefix(family, "shapes") {
+			// these families are well-formed by construction (every symbol defined, no handle written twice)
+			r.Report("", fmt.Sprintf("a well-formed specification is rejected before any table is built: %v\n%s", perr, text), in)
+			return
+		}
 		r.Add("rejected_by_spec_parse_left_to_C07", 1)
 		return
 	}
@@ -429,6 +434,7 @@ func generated(maxProds int, long bool, yield func(g *gram)) {
 type opLevel struct {
 	assoc string
 	ops   []string
+	rules []string // operators whose production is listed as a rule handle: < e = e "+" e >, < e = "-" e >
 }
 
 // pratt parses an operator expression by precedence climbing and returns the reduction sequence
@@ -587,11 +593,20 @@ func operatorGrammar(binary []string, prefix string, levels []opLevel) *gram {
 	}
 	g.prods = append(g.prods, P("e", T("("), e, T(")")), P("e", T("i")))
 	for _, l := range levels {
-		lv := lrref.Level{Assoc: l.assoc, Terms: map[string]bool{}}
+		lv := lrref.Level{Assoc: l.assoc, Terms: map[string]bool{}, Prods: map[string]bool{}}
 		parts := []string{"@" + l.assoc}
 		for _, o := range l.ops {
 			lv.Terms[o] = true
 			parts = append(parts, `"`+o+`"`)
+		}
+		for _, o := range l.rules {
+			if o == prefix {
+				lv.Prods[P("e", T(o), e).String()] = true
+				parts = append(parts, `< e = "`+o+`" e >`)
+			} else {
+				lv.Prods[P("e", e, T(o), e).String()] = true
+				parts = append(parts, `< e = e "`+o+`" e >`)
+			}
 		}
 		g.levels = append(g.levels, lv)
 		g.lines = append(g.lines, strings.Join(parts, " "))
@@ -620,7 +635,7 @@ func main() {
 		r.Finish()
 	}
 	if r.Fork(16) {
-		r.Set("rule", "textbook families; every grammar with up to the production bound over start, x, \"a\", \"b\" with bodies up to the length bound; operator grammars over 2-3 binary and one prefix operator under every ordered partition into levels x every @left/@right assignment x every @left/@right/@none assignment (and missing-level variants, and a directive naming only unused terminals inserted at every position); prefix / postfix / dangling-else shapes, whose only conflicts are between different handles, under every partition x assignment; each accepted grammar is driven on every terminal string up to the length bound (and every operator expression up to the operator bound); non-trivial = grammar for which a table is built; distinct by text")
+		r.Set("rule", "textbook families; every grammar with up to the production bound over start, x, \"a\", \"b\" with bodies up to the length bound; operator grammars over 2-3 binary and one prefix operator under every ordered partition into levels x every @left/@right assignment x every @left/@right/@none assignment (and missing-level variants, a directive naming only unused terminals inserted at every position, and for every operator the rule handle of its production - which contains a terminal and is therefore inert - as a directive of its own at every position and instead of the operator's terminal handle); prefix / postfix / dangling-else shapes, whose only conflicts are between different handles, under every partition x assignment; each accepted grammar is driven on every terminal string up to the length bound (and every operator expression up to the operator bound); non-trivial = grammar for which a table is built; distinct by text")
 		r.Set("evaluations", r.Get("grammars"))
 		r.Finish()
 	}
@@ -714,7 +729,7 @@ func main() {
 				for i, c := 0, code; i < nl; i, c = i+1, c/3 {
 					a := assocs[c%3]
 					anyNone = anyNone || a == "none"
-					levels = append(levels, opLevel{a, parts[i]})
+					levels = append(levels, opLevel{assoc: a, ops: parts[i]})
 				}
 				if !mine() {
 					continue
@@ -732,17 +747,45 @@ func main() {
 				for at := 0; at <= nl; at++ {
 					var with []opLevel
 					with = append(with, levels[:at]...)
-					with = append(with, opLevel{"right", []string{"unused", "%"}})
+					with = append(with, opLevel{assoc: "right", ops: []string{"unused", "%"}})
 					with = append(with, levels[at:]...)
 					checkGrammar(r, operatorGrammar(os.binary, os.prefix, with), "operators_stale_level", 4, exprs, func(in []string) ([]string, bool) {
 						return pratt(lv, bin, os.prefix, in)
 					})
 				}
+				// a rule handle naming a production that contains a terminal is inert (the documentation: such a
+				// production takes the level of its leftmost terminal): written as a directive of its own at every
+				// position it changes nothing, written INSTEAD of the operator's terminal it leaves the operator
+				// without a level, so its conflicts stay unresolved
+				for oi, op := range all {
+					for at := 0; at <= nl; at++ {
+						var with []opLevel
+						with = append(with, levels[:at]...)
+						with = append(with, opLevel{assoc: assocs[(oi+at)%2], rules: []string{op}})
+						with = append(with, levels[at:]...)
+						checkGrammar(r, operatorGrammar(os.binary, os.prefix, with), "operators_inert_rule_handle", 4, exprs, func(in []string) ([]string, bool) {
+							return pratt(lv, bin, os.prefix, in)
+						})
+					}
+					var instead []opLevel
+					for _, l := range levels {
+						nl2 := opLevel{assoc: l.assoc}
+						for _, o := range l.ops {
+							if o == op {
+								nl2.rules = append(nl2.rules, o)
+							} else {
+								nl2.ops = append(nl2.ops, o)
+							}
+						}
+						instead = append(instead, nl2)
+					}
+					checkGrammar(r, operatorGrammar(os.binary, os.prefix, instead), "operators_rule_handle_instead_of_terminal", 4, exprs, nil)
+				}
 			}
 			if mine() && len(parts) > 1 {
 				var levels []opLevel
 				for _, p := range parts[1:] {
-					levels = append(levels, opLevel{"left", p})
+					levels = append(levels, opLevel{assoc: "left", ops: p})
 				}
 				checkGrammar(r, operatorGrammar(os.binary, os.prefix, levels), "operators_missing_level", 4, exprs, nil)
 			}
@@ -845,6 +888,25 @@ func fromSpec(sp *ebnfref.Spec) *gram {
 				if h.Term != nil {
 					lv.Terms[ebnfref.TermName(h.Term)] = true
 					line += ` "` + ebnfref.TermName(h.Term) + `"`
+				} else if h.Rule != nil {
+					if lv.Prods == nil {
+						lv.Prods = map[string]bool{}
+					}
+					sub := fromSpec(&ebnfref.Spec{Decls: []ebnfref.Decl{h.Rule}})
+					var alts []string
+					for _, p := range sub.prods {
+						lv.Prods[p.String()] = true
+						var parts []string
+						for _, sy := range p.Body {
+							if sy.Term {
+								parts = append(parts, `"`+sy.Name+`"`)
+							} else {
+								parts = append(parts, sy.Name)
+							}
+						}
+						alts = append(alts, strings.Join(parts, " "))
+					}
+					line += " < " + h.Rule.LHS + " = " + strings.TrimRight(strings.Join(alts, " | "), " ") + " >"
 				}
 			}
 			g.levels = append(g.levels, lv)
